@@ -427,6 +427,13 @@ def programs(seed, n, extreme=False, compound=False, disj=True, **kw):
                 if idx:
                     i = rng.choice(idx)
                     p[i] = ("fact", Fraction(rng.choice([0, 1])), p[i][2])
+            if extreme and rng.random() < 0.5:
+                # an annotated disjunction at the border: all heads 0.0, or one head 1.0 and the others 0.0
+                idx = [i for i, st in enumerate(p) if st[0] == "ad" and len(st[1]) >= 2]
+                if idx:
+                    i = rng.choice(idx)
+                    one = rng.randrange(len(p[i][1])) if rng.random() < 0.4 else len(p[i][1])
+                    p[i] = ("ad", [(Fraction(1 if j == one else 0), h) for j, (_, h) in enumerate(p[i][1])], p[i][2])
             if disj and random.Random(len(out) * 7 + seed).random() < 0.25:
                 # (own generator: the stream of programs is the same with and without this option)
                 p.insert(0, DISJ)
